@@ -140,6 +140,7 @@ class World:
         self.saw_negative = False
         self.settings_unacked = 1   # the client's initial SETTINGS
         self.client_dead = False
+        self.headers_seen = set()
 
     # -- server side -------------------------------------------------------
     def start(self):
@@ -237,11 +238,15 @@ class World:
             self.ctx.violation(sig, self.case, detail)
 
     def server_wrote(self, data):
-        from hyperframe.frame import DataFrame
+        from hyperframe.frame import DataFrame, HeadersFrame
         self.bytes_out += len(data)
         for f, length in self.s2c_reader.feed(data):
+            if isinstance(f, HeadersFrame):
+                self.headers_seen.add(f.stream_id)
             if isinstance(f, DataFrame):
                 sid = f.stream_id
+                if sid not in self.headers_seen:
+                    self.problems.append(("data-before-response-headers", f"stream {sid}: DATA frame of {len(f.data)} bytes before the response HEADERS"))
                 n = f.flow_controlled_length
                 if sid not in self.granted:
                     self.problems.append(("data-on-unknown-stream", f"stream {sid}"))
